@@ -596,7 +596,7 @@ class SQLGenerator:
                                 collect_models_from_metric(metric.denominator)
                         elif metric.type == "derived" or (not metric.type and not metric.agg and metric.sql):
                             # Derived or untyped metrics with sql - auto-detect dependencies
-                            for ref_metric in metric.get_dependencies(self.graph):
+                            for ref_metric in sorted(metric.get_dependencies(self.graph)):
                                 collect_models_from_metric(ref_metric)
                             # Inline SQL expression metrics (e.g., SUM(orders.amount))
                             # can have empty dependencies, so also parse model refs directly.
@@ -791,7 +791,7 @@ class SQLGenerator:
                             add_sql_columns(aliased_sql, model_name)
                         # Also check dependencies
                         deps = measure.get_dependencies(self.graph, model_name)
-                        for dep in deps:
+                        for dep in sorted(deps):
                             if "." in dep:
                                 extract_from_measure_ref(dep)
                             else:
@@ -810,7 +810,7 @@ class SQLGenerator:
             # Extract from the metric's own filters
             if metric.filters:
                 deps = metric.get_dependencies(self.graph)
-                for dep in deps:
+                for dep in sorted(deps):
                     if "." in dep:
                         dep_model_name = dep.split(".")[0]
                         add_filter_columns(dep_model_name, metric.filters)
@@ -826,7 +826,7 @@ class SQLGenerator:
             # For derived metrics, check all dependencies
             elif metric.type == "derived" or (not metric.type and not metric.agg and metric.sql):
                 deps = metric.get_dependencies(self.graph)
-                for dep in deps:
+                for dep in sorted(deps):
                     if "." in dep:
                         extract_from_measure_ref(dep)
                     else:
@@ -1092,7 +1092,7 @@ class SQLGenerator:
                             not measure.type and not measure.agg and measure.sql
                         ):
                             # Derived/ratio measure - get its dependencies
-                            for dep in measure.get_dependencies(self.graph, ref_model_name):
+                            for dep in sorted(measure.get_dependencies(self.graph, ref_model_name)):
                                 collect_measures_from_metric(dep, visited)
                         elif measure.agg:
                             # Simple aggregation measure - add it
@@ -1115,7 +1115,7 @@ class SQLGenerator:
                         return
                     if measure.type in ("derived", "ratio") or (not measure.type and not measure.agg and measure.sql):
                         # Derived/ratio measure - get its dependencies
-                        for dep in measure.get_dependencies(self.graph, model_name):
+                        for dep in sorted(measure.get_dependencies(self.graph, model_name)):
                             collect_measures_from_metric(dep, visited)
                     elif measure.agg:
                         # Simple aggregation measure - add it
@@ -1126,7 +1126,7 @@ class SQLGenerator:
                         metric = self.graph.get_metric(metric_ref)
                         if metric:
                             # Use auto dependency detection with graph for resolution
-                            for dep in metric.get_dependencies(self.graph, model_name):
+                            for dep in sorted(metric.get_dependencies(self.graph, model_name)):
                                 collect_measures_from_metric(dep, visited)
                     except KeyError:
                         pass
@@ -2521,7 +2521,7 @@ LEFT JOIN conversions ON {join_condition}{group_by}{order_clause}{limit_clause}
                 if not dependencies:
                     add_unique(base_metrics, canon_ref)
                     return
-                for dep in dependencies:
+                for dep in sorted(dependencies):
                     collect_leaf_base_metrics(dep, resolved_context, visited)
                 return
 
